@@ -620,6 +620,15 @@ func (w *blobWorld) drawPlan() {
 		bad := drawReaderPlan(1)
 		good := drawReaderPlan(0)
 		a, b := blobOp{kind: opPut, dig: 0, rf: bad}, blobOp{kind: opPut, dig: 0, rf: good}
+		if chunked && w.digests[0].n >= 2 && D("duel-chunked", 2) == 0 {
+			// the same duel between two chunked writers: one delivers every chunk intact,
+			// the other one's sources misbehave (it may still hold the partial file open
+			// when the good writer has committed the blob)
+			n := w.digests[0].n
+			a = blobOp{kind: opChunked, dig: 0, chunks: drawChunks(n, 1, inOrder), retry: D("retry", 2) == 0}
+			b = blobOp{kind: opChunked, dig: 0, chunks: drawChunks(n, 0, inOrder)}
+			verifsim.Probe("duel_chunked")
+		}
 		if D("duelside", 2) == 0 {
 			a, b = b, a
 		}
